@@ -564,9 +564,28 @@ class TypesGen:
     def emit_impl_hasref(self, qt, c):
         ch = c.children()
         const = next((x for x in ch if x.kw == 'const' and x.name == 'REF_UNIT'), None)
-        if const is None or [x for x in ch if x.kw == 'fn']:
-            raise LostAnchor(f'impl HasRefUnit for {qt.name}: unexpected members')
-        self.sink(qt.name).append(f'impl HasRefUnit for {qt.name} {{\n    {const.text()}\n}}\n')
+        if const is None:
+            raise LostAnchor(f'impl HasRefUnit for {qt.name}: no REF_UNIT')
+        out = [f'impl HasRefUnit for {qt.name} {{', f'    {const.text()}']
+        # a type that overrides a provided method: the override is checked against the trait's contract of that
+        # method (Verus imposes the trait method's ensures on every impl).  `unit_from_scale` is assumed in V and
+        # proved by Kani on the compiled function of every type (K-ufs), which then is the override; `_fit` would
+        # need the R3 slice and is left to K-fit.
+        props_of = {'equiv_amount': ['C01'], 'convert': ['C01'], 'eq': ['C02'], 'partial_cmp': ['C02'],
+                    'add': ['C03'], 'sub': ['C03'], 'div': ['C03']}
+        for x in ch:
+            if x.kw != 'fn':
+                continue
+            if x.name == 'unit_from_scale':
+                self.records.append({'obligation': f'{self.unit}:impl HasRefUnit for {qt.name}::unit_from_scale (not in V: decided by K-ufs)',
+                                     'function': f'impl HasRefUnit for {qt.name}::unit_from_scale', 'file': self.label,
+                                     'lines': list(x.line_span()), 'sha256_body': x.body_sha(), 'props': ['C09'], 'rewrites': ['dropped: K-ufs']})
+                continue
+            if x.name not in props_of:
+                raise LostAnchor(f'impl HasRefUnit for {qt.name}: unexpected member {x.name}')
+            out += ['    ' + self.marker(f'impl HasRefUnit for {qt.name}::{x.name}', props_of[x.name] + ['C18'], x), self.fn_text(x)]
+        out.append('}\n')
+        self.sink(qt.name).append('\n'.join(out))
 
     def emit_cmp(self, qt, c, which):
         X = qt.name
